@@ -269,9 +269,15 @@ type rtmrReq struct {
 	Digest []byte `json:"digest,omitempty"`
 	Hash   uint   `json:"hash,omitempty"`
 	Log    []byte `json:"log,omitempty"`
+	// Kind "external": somebody else (another process, an administrator) changes the TSM tree between two library calls:
+	// "remove:NAME", "create:NAME=INDEX" (a removed name may come back bound to another register)
+	Ext string `json:"ext,omitempty"`
 }
 
 func (q rtmrReq) String() string {
+	if q.Kind == "external" {
+		return "external(" + q.Ext + ")"
+	}
 	if q.Kind == "digest" {
 		return fmt.Sprintf("digest(idx=%d,len=%d,%x)", q.Index, len(q.Digest), q.Digest[:min(2, len(q.Digest))])
 	}
@@ -328,6 +334,22 @@ func runRtmrHistory(h *rtmrHistory) rtmrResult {
 	want := map[int][]byte{} // reference registers
 	res := rtmrResult{}
 	for step, q := range h.Reqs {
+		if q.Kind == "external" {
+			m.mu.Lock()
+			switch {
+			case strings.HasPrefix(q.Ext, "remove:"):
+				delete(m.entries, strings.TrimPrefix(q.Ext, "remove:"))
+			case strings.HasPrefix(q.Ext, "create:"):
+				kv := strings.SplitN(strings.TrimPrefix(q.Ext, "create:"), "=", 2)
+				e := &tsmEntry{}
+				if len(kv) == 2 {
+					e.index, e.hasIndex = kv[1], true
+				}
+				m.entries[kv[0]] = e
+			}
+			m.mu.Unlock()
+			continue
+		}
 		m.mu.Lock()
 		before := len(m.log)
 		m.mu.Unlock()
@@ -512,6 +534,31 @@ func c17(x *mon.Ctx) {
 	// event logs at sizes where a chunked reader meets its buffer boundary (64 KiB, 1 MiB and multiples, one byte either side)
 	for k, n := range []int{65535, 65536, 65537, 1<<20 - 1, 1 << 20, 1<<20 + 1, 1<<20 + 1<<19, 2 << 20, 3 << 20, 4<<20 + 1} {
 		hs = append(hs, &rtmrHistory{Reqs: []rtmrReq{{Kind: "log", Index: k % 4, Hash: uint(crypto.SHA384), Log: dg(n, byte(k))}, {Kind: "digest", Index: k % 4, Digest: dg(48, 9)}}})
+	}
+	// somebody else re-arranges the TSM tree between two library calls: an entry the library has used is removed and a new one
+	// comes back under the SAME name bound to ANOTHER register (and the old register gets a differently named entry, or none)
+	for i := 0; i < 4; i++ {
+		for j := 0; j < 4; j++ {
+			if i == j {
+				continue
+			}
+			for variant := 0; variant < 3; variant++ {
+				d := func(k byte) rtmrReq { return rtmrReq{Kind: "digest", Index: i, Digest: dg(48, k)} }
+				ext := func(s string) rtmrReq { return rtmrReq{Kind: "external", Ext: s} }
+				h := &rtmrHistory{Pre: []string{fmt.Sprintf("app=%d", i)}}
+				switch variant {
+				case 0: // app: i -> j, nothing else bound to i any more
+					h.Reqs = []rtmrReq{d(1), ext("remove:app"), ext(fmt.Sprintf("create:app=%d", j)), d(2), d(3), {Kind: "digest", Index: j, Digest: dg(48, 4)}}
+				case 1: // app: i -> j, and another entry now holds i
+					h.Reqs = []rtmrReq{d(1), d(2), ext("remove:app"), ext(fmt.Sprintf("create:app=%d\n", j)), ext(fmt.Sprintf("create:zzz=%d", i)), d(3), {Kind: "log", Index: j, Hash: uint(crypto.SHA384), Log: dg(100, 5)}, d(6)}
+				case 2: // the library's own entry (created by its first call) is removed and its name re-used for j
+					h.Pre = nil
+					own := fmt.Sprintf("rtmr%d-000001", i)
+					h.Reqs = []rtmrReq{d(1), ext("remove:" + own), ext(fmt.Sprintf("create:%s=%d", own, j)), d(2), {Kind: "digest", Index: j, Digest: dg(48, 7)}, d(3)}
+				}
+				hs = append(hs, h)
+			}
+		}
 	}
 	// all sequences of length <= 3 over a reduced alphabet
 	var alpha []rtmrReq
